@@ -135,7 +135,12 @@ class Engine:
 
     # ------------------------------------------------------------------ loading
     def load_crate(self, crate, mir_path, doc_path=None):
-        fs = parse_mir(open(mir_path).read())
+        text = open(mir_path).read()
+        fs = parse_mir(text)
+        # `allocN (static: path, ..)` annotations: constants of the form `{allocN: &T}` point at that static
+        self.static_allocs = getattr(self, 'static_allocs', {})
+        for mm in re.finditer(r'^(alloc\d+) \(static: ([^,)]+)', text, re.M):
+            self.static_allocs[(crate, mm.group(1))] = mm.group(2)
         self.crates.append(crate)
         for name, fl in fs.items():
             full = crate + '::' + name
@@ -452,6 +457,22 @@ class Engine:
         m = re.match(r'^\{closure@(.*)\}$', s)
         if m:
             return Closure(self.closure_fn_by_span(st, m.group(1)), [])
+        ma = re.match(r'^\{(alloc\d+): &', s)
+        if ma and st.frames:
+            path = getattr(self, 'static_allocs', {}).get((st.frames[-1].fn.crate, ma.group(1)))
+            if path is None:
+                raise Inconclusive('constant pointing into an unnamed allocation: ' + s)
+            key = ('static', st.frames[-1].fn.crate, path)
+            if key not in self.parse_cache:
+                # a reference to the static: its value lives in a constant heap cell shared by all states
+                val = self.eval_path_const(st, path)
+                self.const_heap = getattr(self, 'const_heap', {})
+                hid = next(self.heap_ctr)
+                self.const_heap[hid] = val
+                self.parse_cache[key] = Ref('heap', hid)
+            r = self.parse_cache[key]
+            st.heap[r.local] = self.const_heap[r.local]
+            return r
         if s.startswith('{transmute(') or s.startswith('{0x'):
             m = re.match(r'^\{(?:transmute\()?(0x[0-9a-f]+)\)?: (.*)\}$', s)
             if m:
